@@ -10,9 +10,32 @@ for d in seeded/*/; do
   elif echo "$out" | grep -q "PATCH-DOES-NOT-APPLY\|BUILD-FAILS\|did not finish\|BUILD-TROUBLE"; then echo "TROUBLE  $id $prop"; echo "$out" | tail -3;
   else echo "MISSED   $id $prop"; fi
 done
-for p in "7daf4f9 C09" "8a6eff1 C10" "8fcdfa8 C10" "3d93382 C13" "658217e C19" "c2c8d55 C20" "4b942e9 C11" "79de7a7 C20" "5d866c8 C20" "531f381 C09" "de8aee6 C20" "9acab12 C12" "86a7b1b C12" "bf58d7f C12" "bb417bc C12" "01c70e8 C12" "15a4b2d C11" "a02226d C19" "72be2e9 C19" "4d2137d,902d35b C19"; do
-  set -- $p
-  out=$(tools/revert_eval.sh $1 $2 2>&1)
-  if echo "$out" | grep -q "^VIOLATION"; then echo "DETECTED revert-$1 $2"; else echo "MISSED   revert-$1 $2"; echo "$out" | tail -2; fi
-done
+# <commit[,commit...]> <PROP> <pattern the reported signatures must contain> (a list reverts a fix together with the
+# later commits that touch the same lines; the pattern makes sure it is THIS fix's defect that is reported again)
+while read c prop pat; do
+  [ -z "$c" ] && continue
+  out=$(tools/revert_eval.sh $c $prop 2>&1)
+  if echo "$out" | grep "signature:" | grep -q -- "$pat"; then echo "DETECTED revert-$c $prop ($pat)"; else echo "MISSED   revert-$c $prop ($pat)"; echo "$out" | tail -3; fi
+done <<'LIST'
+7daf4f9 C09 panic
+8a6eff1 C10 C10/
+8fcdfa8 C10 ResetUserOutput
+3d93382 C13 double-commit
+4d2137d,902d35b,72be2e9,a02226d,658217e C19 history-dependent/property
+c2c8d55 C20 node/class.go
+4b942e9 C11 trycatch
+79de7a7 C20 std/php/array
+5d866c8 C20 json
+531f381 C09 received-unsent
+de8aee6 C20 leak/require
+9acab12 C12 lost/autoload
+01c70e8,86a7b1b C12 leak/autoload/GetOrLoadInterface
+01c70e8,bf58d7f C12 leak/autoload/LoadPkg
+bb417bc C12 backslash-form
+01c70e8 C12 nil pointer
+15a4b2d C11 sequential/foreign-request-data
+4d2137d,902d35b,72be2e9,a02226d C19 nullable-property
+72be2e9 C19 union-property
+4d2137d,902d35b C19 constructor-parameter
+LIST
 find /verif/replays -name '*.json' -delete
